@@ -466,6 +466,56 @@ class EditWorld(object):
                 self.problem({"sub": "history_dependence"}, "same tree, different build history: densities %r vs %r for %s" % (
                     da, db, models.canon_str(self.model.canon())))
             self.probe("same_form_pair")
+            # a third construction history: part of the forest is built and EVALUATED, the rest is grafted on afterwards
+            ch_, roots_ = models.children_of(f)
+            if len(roots_) >= 2 or any(len(c) >= 1 for c in ch_):
+                def sub_forest(top):
+                    nodes = []
+
+                    def rec(i):
+                        nodes.append(i)
+                        for c in ch_[i]:
+                            rec(c)
+                    rec(top)
+                    pos = {n: k for k, n in enumerate(nodes)}
+                    return Forest(tuple(f.own[n] for n in nodes), tuple(-1 if n == top else pos[f.parent[n]] for n in nodes), frozenset())
+                graft_tops = []  # (top node, parent node or None)
+                keep = set(range(len(f.own)))
+                cand = [(rt, None) for rt in roots_[1:]] + [(c, i) for i in range(len(f.own)) for c in ch_[i]]
+                r.shuffle(cand)
+                for top, par in cand[: r.randint(1, max(1, len(cand)))]:
+                    sub_nodes = set()
+
+                    def rec2(i):
+                        sub_nodes.add(i)
+                        for c in ch_[i]:
+                            rec2(c)
+                    rec2(top)
+                    if sub_nodes <= keep and (par is None or par in keep - sub_nodes):
+                        keep -= sub_nodes
+                        graft_tops.append((top, par))
+                if graft_tops and keep:
+                    kn = sorted(keep)
+                    posk = {n: k for k, n in enumerate(kn)}
+                    base = Forest(tuple(f.own[n] for n in kn), tuple(-1 if f.parent[n] == -1 else posk[f.parent[n]] for n in kn), f.outliers)
+                    g = bridge.build_tree(base, self.data)
+                    self.densities(g)  # the partially built tree is evaluated (and hashed) before the grafts
+                    hash(g)
+                    for top, par in graft_tops:
+                        st = bridge.build_tree(sub_forest(top), self.data)
+                        pname = None if par is None else g.labels[min(f.own[par])]
+                        g.add_subtree(st, parent=pname)
+                        if r.random() < 0.5:
+                            self.densities(g)
+                    if bridge.canon_tree(g) == self.model.canon():
+                        dg = self.densities(g)
+                        if not monitors.close(da, dg, atol=self.atol):
+                            self.problem({"sub": "history_dependence", "how": "evaluated_then_grafted"},
+                                         "same tree built by grafting onto an already evaluated tree: densities %r vs %r for %s" % (
+                                             da, dg, models.canon_str(self.model.canon())))
+                        if not (g == t) or hash(g) != hash(t):
+                            self.problem({"sub": "eq_same_form", "how": "evaluated_then_grafted"}, "grafted construction compares / hashes unequal")
+                        self.probe("same_form_pair_built_by_grafting")
             # a different form: move one point / change one parent in the model
             m2 = self.model.copy()
             changed = False
